@@ -30,6 +30,7 @@ type c17Chip struct {
 	Fans     []int  `json:"fans"`     // channels with fanN_input
 	Temps    []int  `json:"temps"`    // indices with tempN_input
 	TempOnly []int  `json:"tempOnly"` // tempN features without an input file (tempN_max only)
+	MaxCh    int    `json:"maxCh,omitempty"` // highest channel / index the chip may have (6, or 13 for chips with two-digit channels)
 	Bare     bool   `json:"bare,omitempty"` // neither fans nor temperatures nor pwm controls: a battery / power supply with a voltage input only
 }
 
@@ -46,12 +47,14 @@ func genC17Tree(r *rand.Rand) *c17Tree {
 	names := r.Perm(len(c17Names))[:n]
 	for i := 0; i < n; i++ {
 		c := c17Chip{Dir: fmt.Sprintf("hwmon%d", i), Name: c17Names[names[i]]}
-		for ch := 1; ch <= 6; ch++ {
+		// a quarter of the chips have two-digit channels (fan10.., temp12..: big boards, many-core CPUs)
+		c.MaxCh = pick(r, 6, 6, 6, 13)
+		for ch := 1; ch <= c.MaxCh; ch++ {
 			if r.Intn(2) == 0 {
 				c.Fans = append(c.Fans, ch)
 			}
 		}
-		for ix := 1; ix <= 6; ix++ {
+		for ix := 1; ix <= c.MaxCh; ix++ {
 			switch r.Intn(4) {
 			case 0, 1:
 				c.Temps = append(c.Temps, ix)
@@ -98,7 +101,11 @@ func (t *c17Tree) materialise(root string) {
 			_ = os.WriteFile(filepath.Join(d, "in0_input"), []byte("12100\n"), 0644)
 			continue
 		}
-		for ch := 1; ch <= 6; ch++ {
+		maxCh := c.MaxCh
+		if maxCh == 0 {
+			maxCh = 6
+		}
+		for ch := 1; ch <= maxCh; ch++ {
 			// pwm controls exist for every channel, also where no fan input exists
 			w(filepath.Join(d, fmt.Sprintf("pwm%d", ch)))
 			_ = os.WriteFile(filepath.Join(d, fmt.Sprintf("pwm%d_enable", ch)), []byte("2\n"), 0644)
@@ -197,12 +204,12 @@ func runC17(ctx *Ctx, idx int) {
 			sel.Chip = -1
 		}
 		if r.Intn(2) == 0 {
-			sel.RpmChannel = 1 + r.Intn(7)
+			sel.RpmChannel = 1 + r.Intn(14)
 		} else {
-			sel.Index = 1 + r.Intn(7)
+			sel.Index = 1 + r.Intn(14)
 		}
 		if r.Intn(3) == 0 {
-			sel.PwmChannel = 1 + r.Intn(6)
+			sel.PwmChannel = 1 + r.Intn(t.Chips[maxInt(sel.Chip, 0)].MaxCh)
 		}
 		id := fmt.Sprintf("fan-%d-%d", idx, k)
 		cfg := configuration.FanConfig{ID: id, Curve: "c", HwMon: &configuration.HwMonFanConfig{Platform: t.platform(sel.Chip), Index: sel.Index, RpmChannel: sel.RpmChannel, PwmChannel: sel.PwmChannel}}
@@ -246,7 +253,7 @@ func runC17(ctx *Ctx, idx int) {
 	}
 	// ---- sensors (through the daemon's InitializeObjects)
 	for k := 0; k < 6; k++ {
-		sel := c17SensorSel{Chip: r.Intn(len(t.Chips)), Index: 1 + r.Intn(7)}
+		sel := c17SensorSel{Chip: r.Intn(len(t.Chips)), Index: 1 + r.Intn(14)}
 		if r.Intn(10) == 0 {
 			sel.Chip = -1
 		}
@@ -304,7 +311,7 @@ func runC17(ctx *Ctx, idx int) {
 		fanFile := filepath.Join(root, "filefan")
 		_ = os.WriteFile(fanFile, []byte("100\n"), 0644)
 		for j := 0; j < n; j++ {
-			sel := c17SensorSel{Chip: r.Intn(len(t.Chips)), Index: 1 + r.Intn(7)}
+			sel := c17SensorSel{Chip: r.Intn(len(t.Chips)), Index: 1 + r.Intn(14)}
 			if j > 0 && r.Intn(3) == 0 {
 				sel.Chip = -1 // unknown platform after entries that did bind
 			}
@@ -379,16 +386,16 @@ func runC17(ctx *Ctx, idx int) {
 		for tries := 0; tries < 60 && len(fsels) < 1+r.Intn(2); tries++ {
 			sel := c17FanSel{Chip: r.Intn(len(t.Chips))}
 			if r.Intn(2) == 0 {
-				sel.RpmChannel = 1 + r.Intn(6)
+				sel.RpmChannel = 1 + r.Intn(13)
 			} else {
-				sel.Index = 1 + r.Intn(6)
+				sel.Index = 1 + r.Intn(13)
 			}
 			if _, _, _, ok := t.refFan(root, sel); ok {
 				fsels = append(fsels, sel)
 			}
 		}
 		for tries := 0; tries < 60 && len(ssels) < 1+r.Intn(2); tries++ {
-			sel := c17SensorSel{Chip: r.Intn(len(t.Chips)), Index: 1 + r.Intn(6)}
+			sel := c17SensorSel{Chip: r.Intn(len(t.Chips)), Index: 1 + r.Intn(13)}
 			if _, ok := t.refSensor(root, sel); ok {
 				ssels = append(ssels, sel)
 			}
@@ -469,4 +476,11 @@ func c17NamesABadEntry(msg string, entries []configuration.SensorConfig, bad fun
 		}
 	}
 	return false
+}
+
+func maxInt(a, b int) int {
+	if a > b {
+		return a
+	}
+	return b
 }
